@@ -33,3 +33,15 @@ claim("C05", "proof",
       "Trusted: Coq kernel, extraction, harness.  The interval premise (bounds enclose point values) is property C02.",
       "Coq proof (invariants over the two passes of push) + replay correspondence",
       "DESIGN.md section 6, C05")
+
+claim("C02", "proof",
+      "Coq model of every may-be-NaN flag formula and case split of interval.hpp (Boost's primitives abstracted as "
+      "bounds functions assumed to enclose the exact image), soundness theorems over extended reals, composition over "
+      "tapes and the EMPTY/FILLED classification corollary; tie: Interval::<op> on operand intervals aimed at the case "
+      "splits vs the extracted model (flags and states exact, bounds within ulps where libfive computes them), evaluator "
+      "dispatch vs direct call; oracle: sampled operand / box points through ArrayEvaluator's own kernels must be "
+      "non-NaN and inside unflagged bounds.",
+      "Trusted: Coq kernel; Boost.Interval's directed rounding; extraction; OCaml re-implementation of the primitives "
+      "(diagnostic); harness.  Point kernels at +-inf (Eigen fast-math) are outside the sampled domain; see DESIGN.md.",
+      "Coq proof (case analysis over extended reals, induction over the tape) + differential correspondence",
+      "DESIGN.md section 6, C02")
